@@ -82,11 +82,12 @@ def Drv.apply (d : Drv) (k : Nat) (op : Op) : Drv × Res :=
   let r := step { d.get k with subFail := d.subFail } op
   (d.set r.1, r.2)
 
-/-- a transaction the model has seen (written into a record or staged), by id -/
-def Drv.findTx (d : Drv) (id : Nat) : Option Tx :=
-  let txs := d.accts.flatMap fun s =>
-    (s.trace.filterMap fun e => match e with | .write a => a.latestTx | _ => none) ++
-      (match s.staged.bind (·.latestTx) with | some t => [t] | none => [])
+/-- a transaction account `k` has seen (written into its record or staged for it), by id.  Transactions are
+per-account views (only that account's input / output), so the view of `k` itself is used. -/
+def Drv.findTx (d : Drv) (k : Nat) (id : Nat) : Option Tx :=
+  let s := d.get k
+  let txs := (s.trace.filterMap fun e => match e with | .write a => a.latestTx | _ => none) ++
+    (match s.staged.bind (·.latestTx) with | some t => [t] | none => [])
   txs.find? (·.id == id)
 
 /-- `MarkBatchComplete`: every account of the staged batch -/
@@ -146,7 +147,7 @@ def drvStep (d : Drv) (args : List String) : Drv × String :=
     -- the chain reports the transaction that actually spent the outpoint of live registration #pos
     match nat? k, nat? pos, nat? id, nat? h with
     | some k, some pos, some id, some h =>
-      match d.findTx id, (d.get k).w.spendRegs[pos]? with
+      match d.findTx k id, (d.get k).w.spendRegs[pos]? with
       | some t, some _ =>
         let d0 := (d.apply k (.consumeSpend pos)).1
         let d1 := d0.spendFanout k (some t)
